@@ -657,6 +657,11 @@ def _table():
     _add("Squeeze", "xa", ("F2", "F3", "F4"), "-1", ["P", AX], roles=["axes"])
     _add("Squeeze", "x", ("F1", "F2", "F3", "F4", "S1"), "-1", ["P"])
     _add("Squeeze", "attr", ("F2", "F3"), "-1", ["P"], attrs={"axes": [0]}, opsets=(11,))
+    # several unit dims of which the axes select only some (seeded C03e: a Squeeze implementation of another opset
+    # version ignored the attribute and squeezed every unit dim)
+    _add("Squeeze", "attr.u", ("E3",), "F2", ["P"], attrs={"axes": [0]}, opsets=(11, 1))
+    _add("Squeeze", "attr.u1", ("E3",), "F2", ["P"], attrs={"axes": [1]}, opsets=(11,))
+    _add("Squeeze", "xa.u", ("E3",), "F2", ["P", [i([0]), i([1]), i([0, 1]), i([-3])]], roles=["axes"])
     for tag, perm in (("none", None), ("10", [1, 0]), ("01", [0, 1]), ("021", [0, 2, 1]), ("012", [0, 1, 2]),
                       ("201", [2, 0, 1]), ("120", [1, 2, 0]), ("0132", [0, 1, 3, 2]), ("0123", [0, 1, 2, 3])):
         kin = F_KINDS if perm is None else (f"F{len(perm)}",)
@@ -880,6 +885,7 @@ X_SHAPES = {
     "F2": [("2x3", "f32", [2, 3]), ("Nx3", "f32", ["N", 3]), ("?x3", "f32", [None, 3]), ("1x3", "f32", [1, 3]),
            ("0x3", "f32", [0, 3]), ("NxM", "f32", ["N", "M"]), ("1x1", "f32", [1, 1]), ("2x2", "f32", [2, 2])],
     "F3": [("1x2x3", "f32", [1, 2, 3]), ("Nx2x3", "f32", ["N", 2, 3]), ("2x1x3", "f32", [2, 1, 3])],
+    "E3": [("1x1x3", "f32", [1, 1, 3]), ("Nx1x3", "f32", ["N", 1, 3]), ("1x1x1", "f32", [1, 1, 1])],
     "F4": [("1x2x4x4", "f32", [1, 2, 4, 4]), ("Nx2x4x4", "f32", ["N", 2, 4, 4]), ("1x2xHxW", "f32", [1, 2, "H", "W"])],
     "I2": [("2x3", "i64", [2, 3]), ("Nx3", "i64", ["N", 3])],
     "B2": [("2x3", "b", [2, 3]), ("Nx3", "b", ["N", 3])],
